@@ -3,6 +3,7 @@
 package client
 
 import (
+	"strings"
 	"math/rand"
 	"net/url"
 	"servitor/jtp"
@@ -41,12 +42,19 @@ type verifCase struct {
 	Src   string               `json:"src"`
 }
 
+var verifFragmentStamps = true
+
 func verifDoc(w *verifsim.World, id string, stub bool, stamp string) map[string]any {
 	doc := map[string]any{"type": "Note"}
 	/* ground truth travels in the fragment of the id: it is never sent to a server, does not
 	   change the number of keys (stub rule) and is not looked at by servitor */
 	if id != "none" {
 		doc["id"] = w.URL(id) + "#s=" + stamp
+		if !stub && !verifFragmentStamps {
+			/* every other world: full documents carry their id exactly as the address reads (what they say about
+			   who served them is in their text) */
+			doc["id"] = w.URL(id)
+		}
 	}
 	if !stub {
 		doc["name"] = "n"
@@ -101,6 +109,9 @@ func verifRunCase(out *verifkit.Trace, w *verifsim.World, hosts []string, urls [
 				stamp = parsed.Fragment[2:]
 			}
 		}
+		if text, isString := obj["content"].(string); isString && strings.HasPrefix(text, "served by ") {
+			stamp = strings.TrimPrefix(text, "served by ")
+		}
 	})
 	ev := verifkit.M{"ev": "accept", "via": "FetchUnknown", "modelled": modelled, "inp": inp, "src": src,
 		"ok": ok, "id": id, "id_host": idHost, "stamp": stamp, "panic": panicked}
@@ -124,6 +135,7 @@ func TestVerifProvenance(t *testing.T) {
 	jtp.VerifSetTimeout(3 * time.Second)
 	for sid, c := range in.Cases {
 		jtp.VerifSetCache(1 + rng.Intn(4))
+		verifFragmentStamps = sid%2 == 0
 		w := verifInstallWorld(sim, rng, c.World)
 		urls := []string{}
 		hostSet := map[string]bool{}
